@@ -544,6 +544,8 @@ class Interp:
             return Undef(name)
         if isinstance(obj, Undef):
             return obj
+        if isinstance(obj, Const) and isinstance(obj.v, (str, bytes)) and hasattr(obj.v, name):
+            return Op("bound", obj, Const(name))       # ''.join, b''.join, ' '.join ... taken as a value
         return Op("attr:" + name, obj)
 
     def class_ns(self, cinfo):
@@ -765,7 +767,19 @@ class _ExprMixin:
             left = right
         return and_(*res) if len(res) > 1 else res[0]
 
+    def int_enum_value(self, t):
+        """a member of an IntEnum / IntFlag class is its integer in comparisons and arithmetic"""
+        if isinstance(t, Op) and t.op == "enum" and len(t.args) == 3 and is_const(t.args[0], str) and is_int(t.args[2]):
+            try:
+                ci = self.prog.cls(t.args[0].v)
+            except Exception:
+                ci = None
+            if ci is not None and any(b.split(".")[-1] in ("IntEnum", "IntFlag") for b in ci.bases):
+                return t.args[2]
+        return t
+
     def cmp(self, op, a, b):
+        a, b = self.int_enum_value(a), self.int_enum_value(b)
         if op in ("eq", "ne"):
             # sequences of known length compare element by element
             sa_, sb_ = self.seq_elems(a), self.seq_elems(b)
@@ -1123,6 +1137,21 @@ STR_METHODS = {"strip", "rstrip", "lstrip", "lower", "upper", "hex", "decode", "
 class _CallMixin:
     def call_node(self, n):
         fnode = n.func
+        if isinstance(fnode, ast.Attribute) and fnode.attr == "from_iterable" and len(n.args) == 1 and not n.keywords and \
+                isinstance(n.args[0], (ast.GeneratorExp, ast.ListComp)):
+            f0 = self.ev(fnode)
+            if isinstance(f0, Ext) and f0.name == "itertools.chain.from_iterable":
+                # chain.from_iterable(e for ...)  ==  (x for ... for x in e)
+                inner = n.args[0]
+                nm = "<chainx%d>" % self.next_loop
+                gens = list(inner.generators) + [ast.comprehension(target=ast.Name(id=nm, ctx=ast.Store()), iter=inner.elt, ifs=[], is_async=0)]
+                node = ast.GeneratorExp(elt=ast.Name(id=nm, ctx=ast.Load()), generators=gens)
+                ast.copy_location(node, n)
+                ast.fix_missing_locations(node)
+                try:
+                    return self.ev(node)
+                finally:
+                    self.frames[-1].env.pop(nm, None)
         args = []
         for a in n.args:
             if isinstance(a, ast.Starred):
@@ -1399,12 +1428,27 @@ class _CallMixin:
     def call_value(self, f, args, kwargs, node):
         f = self.simp(f)
         if isinstance(f, Ite):
-            self.guard.append(f.c)
-            a = self.call_value(f.a, args, kwargs, node) if self.feasible() else Undef()
-            self.guard.pop()
-            self.guard.append(not_(f.c))
-            b = self.call_value(f.b, args, kwargs, node) if self.feasible() else Undef()
-            self.guard.pop()
+            def branch(val, cond):
+                self.guard.append(cond)
+                try:
+                    if not self.feasible():
+                        return None
+                    if isinstance(val, Undef):
+                        # a name no path has bound: is this path possible at all?  (exhaustive if/elif/match chains)
+                        from .pelx import unsat
+                        if unsat(self.cur_guard())[0]:
+                            return None
+                    return self.call_value(val, args, kwargs, node)
+                finally:
+                    self.guard.pop()
+            a = branch(f.a, f.c)
+            b = branch(f.b, not_(f.c))
+            if a is None and b is None:
+                return Undef()
+            if a is None:
+                return b
+            if b is None:
+                return a
             return ite(f.c, a, b)
         if isinstance(f, FuncV):
             return self.call_func(f.info, f.selfv, args, kwargs, node)
@@ -1986,6 +2030,20 @@ class _StmtMixin:
             return or_(*cs), []
         if isinstance(p, ast.MatchSequence) and not any(isinstance(x, ast.MatchStar) for x in p.patterns):
             els = self.seq_elems(subj)
+            sv = self.simp(subj)
+            if els is None and isinstance(sv, Op) and sv.op == "m:groups" and len(sv.args) == 1:
+                # the groups of a match of a constant regular expression: as many as the expression has
+                m_ = sv.args[0]
+                rx = m_.args[0] if isinstance(m_, Op) and m_.op in ("m:fullmatch", "m:match", "m:search") and m_.args else None
+                pat = rx.args[0] if isinstance(rx, Op) and rx.op == "call:re.compile" and rx.args else None
+                if is_const(pat, (str, bytes)):
+                    import re as _re
+                    try:
+                        ng = _re.compile(pat.v).groups
+                    except Exception:
+                        ng = None
+                    if ng is not None:
+                        els = [Op("getitem", sv, Const(i)) for i in range(ng)]
             if els is None:
                 raise AnalysisError("match: sequence pattern on a value of unknown length (line %s)" % getattr(p, "lineno", "?"))
             if len(els) != len(p.patterns):
@@ -2239,6 +2297,7 @@ class _LoopMixin:
         self.next_loop += 1
         L.kind = kind
         L.iter = it
+        L.parent = self.loop_ctx[-1] if self.loop_ctx else None
         L.filter = None
         self.loops[L.lid] = L
         fused = self.fusable(it) if kind == "for" else None
@@ -2831,6 +2890,18 @@ class _ExtMixin:
             for kk, vv in src.v.items():
                 d.entries.append((Const(kk), Const(vv), TRUE, ()))
             return
+        if isinstance(src, Op) and src.op == "zip" and len(src.args) == 2:
+            cols = []
+            for a_ in src.args:
+                its = self.seq_items(a_, n)
+                if its is None or any(it[0] != "v" or it[2] != TRUE or (isinstance(it[1], Op) and it[1].op == "splat") for it in its):
+                    cols = None
+                    break
+                cols.append([it[1] for it in its])
+            if cols is not None:
+                for kx, vx in zip(*cols):
+                    self.setitem(ref, kx, vx, n)
+                return
         raise AnalysisError("dict() of a value the analysis does not track (%r, line %s)" % (src, getattr(n, "lineno", "?")))
 
     def x_collections_OrderedDict(self, a, k, n):
@@ -3200,6 +3271,26 @@ class _ExtMixin:
 
     def x_operator_attrgetter(self, a, k, n):
         return Op("attrgetter", *a)
+
+    def x_operator_getitem(self, a, k, n):
+        if len(a) == 2:
+            return self.getitem(a[0], a[1], n)
+        return None
+
+    def x_operator_contains(self, a, k, n):
+        if len(a) == 2:
+            return self.call_value(Op("bound", a[0], Const("__contains__")), [a[1]], {}, n)
+        return None
+
+    def x_functools_reduce(self, a, k, n):
+        if len(a) in (2, 3):
+            els = self.concrete_iter(self.simp(a[1]))
+            if els is not None and len(els) <= UNROLL_MAX and (len(a) == 3 or els):
+                acc = a[2] if len(a) == 3 else els[0]
+                for e in (els if len(a) == 3 else els[1:]):
+                    acc = self.call_value(a[0], [acc, e], {}, n)
+                return acc
+        return None
 
     def x_operator_itemgetter(self, a, k, n):
         return Op("itemgetter", *a)
